@@ -35,13 +35,14 @@
 (* that differs; every step of every trace is judged (a known defect early *)
 (* in a trace does not hide a different one later).                        *)
 (***************************************************************************)
-EXTENDS WorkTreeStatus, Json, IOUtils
+EXTENDS WorkTreeStatusStash, Json, IOUtils
 
 Traces == ndJsonDeserialize(IOEnv.TRACE_FILE)
 Rng(s) == {s[j] : j \in DOMAIN s}
 TracePaths == Rng(Traces[1].paths)      \* the harness puts the path universe of the whole batch into the first line
 TraceActs == {"Checkout", "Switch", "Modify", "Chmod", "Delete", "Create", "Retype", "FileToDir", "DirToFile",
-              "Stage", "StageAll", "Unstage", "RmCached", "Commit", "ResetMixed", "ResetHard"}
+              "Stage", "StageAll", "Unstage", "RmCached", "Commit", "ResetMixed", "ResetHard", "StashPush", "StashPop"}
+NoBound == 0
 
 \* constants of WorkTreeStatus that the trace dispatch does not use
 NoTrees == {}
@@ -49,7 +50,7 @@ NoCells == {}
 NoContents == {}
 
 VARIABLES tid, l, obs
-tvars == <<vars, tid, l, obs>>
+tvars == <<svars, tid, l, obs>>
 
 Ev == Traces[tid].ev
 ToMap(es) == [p \in Paths |-> IF \E j \in DOMAIN es : es[j].p = p
@@ -63,10 +64,10 @@ TraceInit ==
     /\ tid \in DOMAIN Traces
     /\ l = 1
     /\ obs = CleanReport
-    /\ Init
+    /\ SInit
 
 \* the specification's own action for the logged step
-Act(e) ==
+BaseAct(e) ==
     CASE e.act = "Checkout"   -> Checkout(ToMap(e.t))
       [] e.act = "Switch"     -> Switch(ToMap(e.t))
       [] e.act = "Modify"     -> Modify(e.p, e.c)
@@ -84,6 +85,11 @@ Act(e) ==
       [] e.act = "ResetMixed" -> ResetMixed
       [] e.act = "ResetHard"  -> ResetHard
       [] OTHER                -> FALSE
+\* stash push / pop (WorkTreeStatusStash); every other action leaves the stash alone
+Act(e) ==
+    CASE e.act = "StashPush"  -> StashPush
+      [] e.act = "StashPop"   -> StashPop
+      [] OTHER                -> BaseAct(e) /\ UNCHANGED stash
 
 Strict(e) ==
     /\ Act(e)
@@ -94,6 +100,9 @@ Generic(e) ==
     /\ rep' = Report(head', index', wd')
     /\ n' = n + 1
     /\ last' = [act |-> e.act, p |-> e.p, q |-> e.q, cell |-> Cell(e.k, e.c)]
+    /\ stash' = CASE e.act = "StashPush" -> Saved(head, index, wd)
+                  [] e.act = "StashPop"  -> NoStash
+                  [] OTHER               -> stash
 
 \* the index-only edits: where the specification's action is enabled in the observed state, the
 \* observed state after the step has to be the one the action leads to.  (The specification's
@@ -167,7 +176,7 @@ Finish ==
     /\ l = Len(Ev) + 1
     /\ PrintT(<<"DONE", Traces[tid].tid, Len(Ev)>>)
     /\ l' = l + 1
-    /\ UNCHANGED <<vars, tid, obs>>
+    /\ UNCHANGED <<svars, tid, obs>>
 
 TraceNext == Consume \/ Finish
 TraceSpec == TraceInit /\ [][TraceNext]_tvars
